@@ -22,7 +22,7 @@ LEVEL = "fault_enumeration"
 RULE = (
     "Invocation = request set (1..4 of: current / deprecated SPDX identifiers, 'ID+', unknown names, LicenseRef- with / without --source file | directory | "
     "directory lacking the file) | --all over a project with 0..4 missing licences (some of them unknown identifiers) | -o PATH, x per-identifier network plan {200 + body, 404, 500, "
-    "connection reset, body shorter than Content-Length} x LICENSES/ pre-state {absent, empty, target already present with sentinel bytes} x cwd {root, "
+    "connection reset, body shorter than Content-Length} x LICENSES/ pre-state {absent, empty, target already present with sentinel bytes, target present as a dangling symbolic link pointing out of the project} x cwd {root, "
     "sub-directory of a Git repository, inside LICENSES/ with and without Git, outside with --root}; sequences of 1..3 invocations.  Oracle: every "
     "pre-existing file byte-identical; new files only LICENSES/<id without '+'>.txt under the root (or the -o path) with exactly the served body / the "
     "--source bytes / empty for a bare LicenseRef-; a failed identifier leaves no file and makes the exit status non-zero; all succeeded => exit 0; no "
@@ -73,7 +73,9 @@ def case(draw):
     return {"git": draw(st.booleans()), "licenses_state": draw(st.sampled_from(["absent", "empty", "some"])),
             "preexisting": draw(st.lists(st.sampled_from(VALID + ["LicenseRef-custom"]), max_size=3, unique=True)),
             "used": draw(st.lists(st.sampled_from(VALID + ["LicenseRef-custom", "MIT+", "NotALicense", "GPL-9.9"]), max_size=4, unique=True)),
-            "steps": draw(st.lists(invocation(), min_size=1, max_size=3))}
+            "steps": draw(st.lists(invocation(), min_size=1, max_size=3)),
+            # LICENSES/<id>.txt present as a dangling symbolic link that points out of the project
+            "dangling": draw(st.lists(st.sampled_from(VALID + ["LicenseRef-custom"]), max_size=2, unique=True)) if draw(st.integers(0, 3)) == 0 else []}
 
 
 def body_of(ident):
@@ -98,6 +100,10 @@ def check(ctx, c):
         files["custom/one.txt"] = "single source file\n"
         files["emptydir/.keep"] = "x"
         tree.write_tree(root, files)
+        for i in c.get("dangling", []):
+            lp = root / "LICENSES" / f"{i}.txt"
+            if (root / "LICENSES").is_dir() and not os.path.lexists(lp):
+                os.symlink(f"../../outside-{i}.txt", lp)
         if c["git"]:
             tree.git_init(root)
         nontrivial = False
@@ -230,7 +236,7 @@ def check(ctx, c):
             if not any_fail and res.code != 0:
                 ctx.fail(case_d, f"every identifier succeeded but the exit status is {res.code}: {res.out!r} {res.err[-200:]!r}")
         ctx.count(c, nontrivial=nontrivial or (c["licenses_state"] == "some" and bool(c["preexisting"])),
-                  labels=[f"git:{c['git']}", f"licenses:{c['licenses_state']}", f"steps:{len(c['steps'])}"] + [f"mode:{s['mode']}" for s in c["steps"]] + [f"cwd:{s['cwd']}" for s in c["steps"]],
+                  labels=[f"git:{c['git']}", f"licenses:{c['licenses_state']}", f"dangling-links:{len(c.get('dangling', []))}", f"steps:{len(c['steps'])}"] + [f"mode:{s['mode']}" for s in c["steps"]] + [f"cwd:{s['cwd']}" for s in c["steps"]],
                   sample={"steps": [{k: s[k] for k in ("mode", "ids", "source", "cwd")} for s in c["steps"]], "licenses": c["licenses_state"], "preexisting": c["preexisting"]})
     finally:
         tree.rmtree(base)
